@@ -71,6 +71,44 @@ pub trait Policy {
     fn finish(&mut self, world: &Arc<World>, events: &[Event]) -> Result<(), Violation>;
 }
 
+/// What the controller needs from a set of actors, whether they are threads of this process
+/// (`World`) or forked child processes (`procsim::ProcArena`).
+pub trait Arena {
+    fn wait_quiescent(&self, timeout: Duration) -> Result<(), seam::Watchdog>;
+    fn pending(&self) -> Vec<(usize, Op)>;
+    /// finished actors with the result of their last mediated call
+    fn finished(&self) -> Vec<(usize, i64, i32)>;
+    fn grant(&self, id: usize, d: Decision);
+}
+
+impl Arena for World {
+    fn wait_quiescent(&self, timeout: Duration) -> Result<(), seam::Watchdog> {
+        World::wait_quiescent(self, timeout)
+    }
+    fn pending(&self) -> Vec<(usize, Op)> {
+        World::pending(self)
+    }
+    fn finished(&self) -> Vec<(usize, i64, i32)> {
+        let st = self.st.lock().unwrap();
+        st.slots
+            .iter()
+            .enumerate()
+            .filter(|(_, s)| matches!(s.state, crate::seam::SlotState::Finished))
+            .map(|(i, s)| (i, s.ret, s.errno))
+            .collect()
+    }
+    fn grant(&self, id: usize, d: Decision) {
+        World::grant(self, id, d)
+    }
+}
+
+pub struct LoopOutcome {
+    pub events: Vec<Event>,
+    pub violation: Option<Violation>,
+    pub truncated: bool,
+    pub switches: u32,
+}
+
 #[derive(Debug)]
 pub enum RunError {
     Watchdog(String),
@@ -184,6 +222,169 @@ pub fn hash_events(events: &[Event]) -> u64 {
     h
 }
 
+/// The controller loop proper: release one actor at a time, let the policy judge and decide.
+pub fn control_loop<P: Policy, A: Arena + ?Sized>(
+    arena: &A,
+    world: &Arc<World>,
+    n: usize,
+    tape: &mut Tape,
+    policy: &mut P,
+    max_steps: u32,
+    watchdog: Duration,
+) -> Result<LoopOutcome, RunError> {
+    let mut events: Vec<Event> = Vec::new();
+    let mut names = TempNames::new();
+    let mut violation: Option<Violation> = None;
+    let mut truncated = false;
+    let mut last_actor: Option<usize> = None;
+    let mut step: u32 = 0;
+    let mut switches = 0u32;
+    let mut wd_err: Option<RunError> = None;
+    let mut last_ev: Vec<Option<usize>> = vec![None; n];
+
+    loop {
+        if arena.wait_quiescent(watchdog).is_err() {
+            wd_err = Some(RunError::Watchdog(format!(
+                "no yield within {:?} at step {} (last actor {:?})",
+                watchdog, step, last_actor
+            )));
+            break;
+        }
+        let pend = arena.pending();
+        // fill in results of calls that have completed since the last quiescent point
+        for (id, op) in pend.iter() {
+            if let Some(ix) = last_ev[*id] {
+                let e = &mut events[ix];
+                if !e.done {
+                    e.done = true;
+                    if is_syscall(e.kind) {
+                        e.ret = op.prev_ret;
+                        e.errno = op.prev_errno;
+                    }
+                }
+            }
+        }
+        for (id, ret, errno) in arena.finished() {
+            if let Some(ix) = last_ev[id] {
+                let e = &mut events[ix];
+                if !e.done {
+                    e.done = true;
+                    if is_syscall(e.kind) {
+                        e.ret = ret;
+                        e.errno = errno;
+                    }
+                }
+            }
+        }
+        if violation.is_none() && !truncated {
+            let ctx = StepCtx {
+                world,
+                step,
+                pending: &pend,
+                events: &events,
+            };
+            if let Err(v) = policy.check(&ctx) {
+                violation = Some(v);
+            }
+        }
+        if pend.is_empty() {
+            break;
+        }
+        if violation.is_some() || truncated {
+            // drain: kill everybody still alive, one at a time
+            let (id, _) = pend[0];
+            arena.grant(
+                id,
+                Decision {
+                    action: Action::CrashBefore,
+                    next_preempt: 0,
+                },
+            );
+            continue;
+        }
+        if step >= max_steps {
+            truncated = true;
+            continue;
+        }
+        // choose who runs: option 0 = same actor as before if it is runnable, else lowest id
+        let mut order: Vec<usize> = Vec::with_capacity(pend.len());
+        if let Some(l) = last_actor {
+            if pend.iter().any(|(i, _)| *i == l) {
+                order.push(l);
+            }
+        }
+        for (i, _) in pend.iter() {
+            if Some(*i) != order.first().copied() {
+                order.push(*i);
+            }
+        }
+        if order.len() > 1 {
+            let awake: Vec<usize> = order
+                .iter()
+                .copied()
+                .filter(|a| !policy.stalled(*a, step))
+                .collect();
+            if !awake.is_empty() {
+                order = awake;
+            }
+        }
+        let next = if order.len() == 1 {
+            order[0]
+        } else {
+            let mut w = vec![1u32; order.len()];
+            w[0] = policy.stay_weight();
+            order[tape.choose("sched", &w)]
+        };
+        if last_actor.is_some() && last_actor != Some(next) {
+            switches += 1;
+        }
+        let op = pend.iter().find(|(i, _)| *i == next).unwrap().1.clone();
+        let d = policy.decide(next, &op, tape, world);
+        events.push(Event {
+            step,
+            actor: next,
+            kind: op.kind,
+            path: names.norm(&op.path),
+            path2: if op.kind == OpKind::Boundary {
+                // long payloads (compiled hex) are for the policy, not for the log
+                let t = names.norm_text(&op.path2);
+                if t.len() > 240 {
+                    let mut k = 240;
+                    while !t.is_char_boundary(k) {
+                        k -= 1;
+                    }
+                    format!("{}...", &t[..k])
+                } else {
+                    t
+                }
+            } else {
+                names.norm(&op.path2)
+            },
+            len: op.len,
+            fd: op.fd,
+            action: d.action,
+            ret: 0,
+            errno: 0,
+            done: false,
+            clock_ns: world.now_ns(),
+        });
+        last_ev[next] = Some(events.len() - 1);
+        arena.grant(next, d);
+        last_actor = Some(next);
+        step += 1;
+    }
+
+    if let Some(e) = wd_err {
+        return Err(e);
+    }
+    Ok(LoopOutcome {
+        events,
+        violation,
+        truncated,
+        switches,
+    })
+}
+
 pub fn run<P: Policy>(
     world: Arc<World>,
     specs: Vec<ActorSpec>,
@@ -235,166 +436,23 @@ pub fn run<P: Policy>(
         handles.push(h);
     }
 
-    let mut events: Vec<Event> = Vec::new();
-    let mut names = TempNames::new();
-    let mut violation: Option<Violation> = None;
-    let mut truncated = false;
-    let mut last_actor: Option<usize> = None;
-    let mut step: u32 = 0;
-    let mut switches = 0u32;
-    let mut wd_err: Option<RunError> = None;
-    let mut last_ev: Vec<Option<usize>> = vec![None; n];
-
-    loop {
-        if world.wait_quiescent(watchdog).is_err() {
-            wd_err = Some(RunError::Watchdog(format!(
-                "no yield within {:?} at step {} (last actor {:?})",
-                watchdog, step, last_actor
-            )));
-            break;
-        }
-        let pend = world.pending();
-        // fill in results of calls that have completed since the last quiescent point
-        for (id, op) in pend.iter() {
-            if let Some(ix) = last_ev[*id] {
-                let e = &mut events[ix];
-                if !e.done {
-                    e.done = true;
-                    if is_syscall(e.kind) {
-                        e.ret = op.prev_ret;
-                        e.errno = op.prev_errno;
-                    }
-                }
-            }
-        }
-        {
-            let st = world.st.lock().unwrap();
-            for (id, s) in st.slots.iter().enumerate() {
-                if matches!(s.state, crate::seam::SlotState::Finished) {
-                    if let Some(ix) = last_ev[id] {
-                        let e = &mut events[ix];
-                        if !e.done {
-                            e.done = true;
-                            if is_syscall(e.kind) {
-                                e.ret = s.ret;
-                                e.errno = s.errno;
-                            }
-                        }
-                    }
-                }
-            }
-        }
-        if violation.is_none() && !truncated {
-            let ctx = StepCtx {
-                world: &world,
-                step,
-                pending: &pend,
-                events: &events,
-            };
-            if let Err(v) = policy.check(&ctx) {
-                violation = Some(v);
-            }
-        }
-        if pend.is_empty() {
-            break;
-        }
-        if violation.is_some() || truncated {
-            // drain: kill everybody still alive, one at a time
-            let (id, _) = pend[0];
-            world.grant(
-                id,
-                Decision {
-                    action: Action::CrashBefore,
-                    next_preempt: 0,
-                },
-            );
-            continue;
-        }
-        if step >= max_steps {
-            truncated = true;
-            continue;
-        }
-        // choose who runs: option 0 = same actor as before if it is runnable, else lowest id
-        let mut order: Vec<usize> = Vec::with_capacity(pend.len());
-        if let Some(l) = last_actor {
-            if pend.iter().any(|(i, _)| *i == l) {
-                order.push(l);
-            }
-        }
-        for (i, _) in pend.iter() {
-            if Some(*i) != order.first().copied() {
-                order.push(*i);
-            }
-        }
-        if order.len() > 1 {
-            let awake: Vec<usize> = order
-                .iter()
-                .copied()
-                .filter(|a| !policy.stalled(*a, step))
-                .collect();
-            if !awake.is_empty() {
-                order = awake;
-            }
-        }
-        let next = if order.len() == 1 {
-            order[0]
-        } else {
-            let mut w = vec![1u32; order.len()];
-            w[0] = policy.stay_weight();
-            order[tape.choose("sched", &w)]
-        };
-        if last_actor.is_some() && last_actor != Some(next) {
-            switches += 1;
-        }
-        let op = pend.iter().find(|(i, _)| *i == next).unwrap().1.clone();
-        let d = policy.decide(next, &op, tape, &world);
-        events.push(Event {
-            step,
-            actor: next,
-            kind: op.kind,
-            path: names.norm(&op.path),
-            path2: if op.kind == OpKind::Boundary {
-                // long payloads (compiled hex) are for the policy, not for the log
-                let t = names.norm_text(&op.path2);
-                if t.len() > 240 {
-                    let mut k = 240;
-                    while !t.is_char_boundary(k) {
-                        k -= 1;
-                    }
-                    format!("{}...", &t[..k])
-                } else {
-                    t
-                }
-            } else {
-                names.norm(&op.path2)
-            },
-            len: op.len,
-            fd: op.fd,
-            action: d.action,
-            ret: 0,
-            errno: 0,
-            done: false,
-            clock_ns: world.now_ns(),
-        });
-        last_ev[next] = Some(events.len() - 1);
-        world.grant(next, d);
-        last_actor = Some(next);
-        step += 1;
-    }
-
-    if let Some(e) = wd_err {
-        // cannot join stuck threads; the caller must treat this process as poisoned
-        return Err(e);
-    }
+    let lo = control_loop(&*world, &world, n, tape, policy, max_steps, watchdog)?;
+    // (on a watchdog error the stuck threads cannot be joined; the caller must treat this
+    // process as poisoned)
     for h in handles {
         let _ = h.join();
     }
+    let LoopOutcome {
+        events,
+        mut violation,
+        truncated,
+        switches,
+    } = lo;
     if violation.is_none() && !truncated {
         if let Err(v) = policy.finish(&world, &events) {
             violation = Some(v);
         }
     }
-    let _ = n;
     let log_hash = hash_events(&events);
     let panics = panics.lock().unwrap().clone();
     Ok(RunOutcome {
